@@ -260,8 +260,8 @@ def run_property(prop: str, tier: str, specs, *, level="model_checking", crash_i
             "histories": len(hs), "processes": sum(len(h["codes"]) for h in hs),
             "scripted_behaviours_replayed": n_scripted, "scripted_replays_equal_to_spec": n_replay_ok,
             "histories_not_completed": len(crashed),
-            **{k: stats[k] for k in ("events", "iterations", "populations", "checkpoints", "resumes",
-                                     "tie_iterations")},
+            **{k: stats.get(k, 0) for k in ("events", "iterations", "populations", "population_batches_hooked",
+                                            "pools_hooked", "checkpoints", "resumes", "tie_iterations")},
             "samples": ([{"spec": hs[0]["spec"], "first_iteration_event": it_ev[0] if it_ev else None}] if hs else [])
             + ([{"ins_spec": ihs[0]["spec"], "first_ins_iteration_event": iit[0] if iit else None}] if ins_stats else []),
             "importance_sampler": ins_stats,
